@@ -18,9 +18,9 @@ require (
 	github.com/grpc-ecosystem/go-grpc-middleware v1.4.0 // indirect
 	github.com/grpc-ecosystem/go-grpc-prometheus v1.2.0 // indirect
 	github.com/grpc-ecosystem/grpc-opentracing v0.0.0-20180507213350-8e809c8a8645 // indirect
+	github.com/klauspost/compress v1.18.0 // indirect
 	github.com/munnerz/goautoneg v0.0.0-20191010083416-a7dc8b61c822 // indirect
 	github.com/opentracing/opentracing-go v1.2.0 // indirect
-	github.com/pelletier/go-toml/v2 v2.2.3 // indirect
 	github.com/prometheus/client_model v0.6.1 // indirect
 	github.com/prometheus/common v0.63.0 // indirect
 	github.com/prometheus/procfs v0.16.0 // indirect
@@ -48,6 +48,7 @@ require (
 	github.com/anishathalye/porcupine v1.3.0
 	github.com/google/gopacket v1.1.19
 	github.com/miscreant/miscreant.go v0.0.0-20200214223636-26d376326b75
+	github.com/pelletier/go-toml/v2 v2.2.3
 	github.com/scionproto/scion v0.12.0
 	golang.org/x/sys v0.31.0
 	google.golang.org/grpc v1.71.1
